@@ -5,6 +5,7 @@ package main
 import (
 	"fmt"
 	"go/types"
+	"sort"
 	"strings"
 
 	"golang.org/x/tools/go/ssa"
@@ -179,12 +180,33 @@ func (e *Exec) havocGuarded(s *State, mon *Monitor, objT types.Type, obj *Node) 
 			e.havocFieldHeap(s, t, fld)
 			continue
 		}
-		for name, sortS := range e.heapSorts {
-			if strings.HasPrefix(name, h) {
-				e.setHeap(s, name, TS.Fresh("lk_"+name, sortS))
-			}
+		e.havocFamily(s, h, "lk_")
+	}
+}
+
+// havocFamily makes every heap whose name starts with prefix arbitrary, including members not yet
+// touched in this activation (through the family epoch).
+func (e *Exec) havocFamily(s *State, h string, tag string) {
+	var names []string
+	for name := range s.heaps {
+		if strings.HasPrefix(name, h) {
+			names = append(names, name)
 		}
-		e.pendingGuardHeaps = append(e.pendingGuardHeaps, h)
+	}
+	sort.Strings(names)
+	for _, name := range names {
+		e.setHeap(s, name, TS.Fresh(tag+name, e.heapSorts[name]))
+	}
+	epochCounter++
+	if s.prefEpoch == nil {
+		s.prefEpoch = map[string]int{}
+	}
+	s.prefEpoch[h] = epochCounter
+	if e.written != nil {
+		e.written["family:"+h] = true
+		if e.writtenWhole != nil {
+			e.writtenWhole["family:"+h] = true
+		}
 	}
 }
 
@@ -196,7 +218,7 @@ func (e *Exec) guardInfo(heapName string) (*Monitor, string) {
 	}
 	rest := heapName[2:]
 	for _, m := range e.v.db.Monitors {
-		pfx := shortPkg(m.PkgPath) + "." + m.TypeName + "."
+		pfx := e.v.heapPkgName(m.PkgPath) + "." + m.TypeName + "."
 		if strings.HasPrefix(rest, pfx) {
 			f := rest[len(pfx):]
 			for _, g := range m.Guards {
@@ -300,6 +322,8 @@ func (e *Exec) mapLen(s *State, mt *types.Map, m *Node) *Node {
 	h := e.heap(s, name, arraySort(RefSort, e.mode.idxSort()))
 	l := Select(h, m)
 	s.assume(e.ile(e.idx(0), l))
+	// physical bound: a map never holds 2^48 entries (recorded as a machine assumption)
+	s.assume(e.ile(l, e.idx(1<<48)))
 	return Ite(Eq(m, IntLit(0)), e.idx(0), l)
 }
 
@@ -374,6 +398,7 @@ func (e *Exec) mapSet(s *State, mt *types.Map, m, k *Node, val Value) {
 	}
 	ln := "M:" + typeKey(mt) + ".len"
 	lh := e.heap(s, ln, arraySort(RefSort, e.mode.idxSort()))
+	s.assume(And(e.ile(e.idx(0), Select(lh, m)), e.ile(Select(lh, m), e.idx(1<<48))))
 	e.setHeap(s, ln, Store(lh, m, Ite(had, Select(lh, m), e.iadd(Select(lh, m), e.idx(1)))), m)
 }
 
@@ -440,4 +465,28 @@ func (e *Exec) rangeNext(s *State, x *ssa.Next) Value {
 	i := e.freshValue(s, "rangeidx", types.Typ[types.Int])
 	r := e.freshValue(s, "rangerune", types.Typ[types.Int32])
 	return &TupleV{E: []Value{ok, i, r}}
+}
+
+// packKey: composite (struct) map keys are packed into one term of an uninterpreted tuple sort via
+// an injective constructor (declared per key type).
+func (e *Exec) packKey(sv *StructV, kt types.Type) *Node {
+	ls := leavesOf(sv)
+	var sorts []string
+	for _, l := range ls {
+		sorts = append(sorts, l.Sort)
+	}
+	sortName := "K_" + sanitize(typeKey(kt)) + fmt.Sprintf("_%d", int(e.mode))
+	TS.DeclSort(sortName)
+	fn := "mk_" + sortName
+	TS.DeclFun(fn, sorts, sortName)
+	k := App(fn, sortName, ls...)
+	// projections make the constructor injective
+	for i, l := range ls {
+		pf := fmt.Sprintf("proj%d_%s", i, sortName)
+		TS.DeclFun(pf, []string{sortName}, l.Sort)
+		if !k.bound {
+			e.keyFacts = append(e.keyFacts, Eq(App(pf, l.Sort, k), l))
+		}
+	}
+	return k
 }
